@@ -420,13 +420,20 @@ fn unescape(line: &[u8]) -> Vec<u8> {
 }
 
 pub fn e2e_session(rep: &mut Report, seed: u64, verbose: bool) -> bool {
+    e2e_session_gap(rep, seed, verbose, 0)
+}
+
+/// `gap_ms` > 0: the connection stays silent for that long (wall clock) between the pokes and the
+/// rest of the script - a long run of empty batches; everything sent afterwards must still be
+/// acted on.
+pub fn e2e_session_gap(rep: &mut Report, seed: u64, verbose: bool, gap_ms: u64) -> bool {
     let bin = &crate::runrig::real_binary();
     if !std::path::Path::new(bin).exists() {
         rep.inconclusive.push("real release binary not built".into());
         return false;
     }
     let mut rng = Rng::new(seed);
-    let replay = format!("check=C18 kind=e2e seed={}", seed);
+    let replay = format!("check=C18 kind=e2e seed={} gap={}", seed, gap_ms);
     let poked: Vec<u8> = "poke \\ me\n\u{3042}!".as_bytes().to_vec();
     let mut texts: Vec<Vec<u8>> = vec![vec![b'?'; poked.len()]];
     let extra = ["line1\nline2\n", "back\\slash \\n literal", "\u{1F600} multi \u{e9}\u{3042}", "", "tail\\", "\n\n", "a:b:c"];
@@ -484,6 +491,15 @@ pub fn e2e_session(rep: &mut Report, seed: u64, verbose: bool) -> bool {
         }
         script.push(format!("u8:{:x}:{:x}", text0 + i as u32, b));
     }
+    // with an idle gap: the last byte of the text is poked only after the silence
+    let mut late: Vec<String> = vec![];
+    if gap_ms > 0 {
+        let i = poked.len() - 1;
+        script.push(format!("u8:{:x}:{:x}", text0 + i as u32, poked[i] ^ 0x77));
+        late.push(format!("u8:{:x}:{:x}", text0 + i as u32, poked[i]));
+    }
+    let split_at = script.len();
+    script.extend(late);
     // over-long junk lines whose tail, cut at a typical buffer size, would read as a well-formed poke
     // of the text (or as a stop command): one line is one message, however long
     if !poked.is_empty() {
@@ -497,7 +513,9 @@ pub fn e2e_session(rep: &mut Report, seed: u64, verbose: bool) -> bool {
     script.push("cmd:pause".into());
     script.push("cmd:start".into());
     let mode = rng.below(4);
-    let payload: Vec<u8> = script.iter().flat_map(|l| l.bytes().chain(std::iter::once(b'\n'))).collect();
+    let (script_a, script_b): (Vec<String>, Vec<String>) = if gap_ms > 0 { (script[..split_at].to_vec(), script[split_at..].to_vec()) } else { (script.clone(), vec![]) };
+    let payload: Vec<u8> = script_a.iter().flat_map(|l| l.bytes().chain(std::iter::once(b'\n'))).collect();
+    let payload_b: Vec<u8> = script_b.iter().flat_map(|l| l.bytes().chain(std::iter::once(b'\n'))).collect();
     let mut transcript: Vec<u8> = vec![];
     let mut pump = |stream: &mut std::net::TcpStream, transcript: &mut Vec<u8>| {
         let mut buf = [0u8; 4096];
@@ -534,7 +552,7 @@ pub fn e2e_session(rep: &mut Report, seed: u64, verbose: bool) -> bool {
             }
         }
         _ => {
-            for l in &script {
+            for l in &script_a {
                 let _ = stream.write_all(l.as_bytes());
                 let _ = stream.write_all(b"\n");
                 if rng.chance(1, 4) {
@@ -544,6 +562,12 @@ pub fn e2e_session(rep: &mut Report, seed: u64, verbose: bool) -> bool {
         }
     }
     let _ = stream.flush();
+    if gap_ms > 0 {
+        std::thread::sleep(std::time::Duration::from_millis(gap_ms));
+        let _ = stream.write_all(&payload_b);
+        let _ = stream.flush();
+        rep.cell("idle-gap-seconds", &[gap_ms / 1000]);
+    }
     // ---- expected messages
     let mut expected: Vec<Vec<u8>> = vec![b"ready".to_vec()];
     for (i, t) in texts.iter().enumerate() {
@@ -656,13 +680,19 @@ pub fn c18(rep: &mut Report, cfg: &Cfg) {
     for _ in 0..ne2e {
         e2e_session(rep, rng.next(), false);
     }
+    // idle connection (wall clock): one session per shard with a silent period before the rest of the
+    // script; the shards run side by side, so the longest gap bounds the added time
+    let gaps: &[u64] = if cfg.tier_thorough { &[1, 3, 6, 11, 16, 21, 31, 46, 61, 91, 121, 2, 4, 8, 13, 35] } else { &[1, 2, 3, 4, 5, 6, 7, 8, 9, 10, 11, 12, 1, 2, 3, 4] };
+    let gap = gaps[(cfg.shard as usize) % gaps.len()];
+    e2e_session_gap(rep, rng.next(), false, gap * 1000 + 300);
     rep.notes.push("C18: in-process run() on a spinning guest with the channel-backed socket; the per-iteration hook delivers a generated line sequence (cmd:pause/start/stop, u8 stores to memory and port registers, ioport pin changes, ~45 kinds of malformed lines) under every partition into polling batches for short sequences (all compositions) and seeded partitions otherwise; judged against a sequential model (memory, port state, nothing applied after stop), pause honoured iteration by iteration (state count in the hook), and all partitions must give identical ioport message sequences and final state. End-to-end: the release binary with -s -w over real TCP, script sent in one write / byte by byte / split mid-line with delays / line by line; the wire transcript must unescape line by line to exactly the emitted messages in order (texts with newline, backslash, multi-byte UTF-8; one text poked through u8 lines with overwrites). Time-outs are inconclusive. Cells: (partition shape, #batches, #lines), (line kind, position in batch), chunking modes, escape classes.".into());
 }
 
 pub fn replay(line: &str) -> (bool, String) {
     let seed: u64 = line.split_whitespace().find_map(|t| t.strip_prefix("seed=")).and_then(|v| v.parse().ok()).unwrap_or(0);
     let mut rep = Report::new("C18");
-    let bad = if line.contains("kind=e2e") { e2e_session(&mut rep, seed, true) } else { c18_case(&mut rep, seed, true) };
+    let gap: u64 = line.split_whitespace().find_map(|t| t.strip_prefix("gap=")).and_then(|v| v.parse().ok()).unwrap_or(0);
+    let bad = if line.contains("kind=e2e") { e2e_session_gap(&mut rep, seed, true, gap) } else { c18_case(&mut rep, seed, true) };
     let mut out = String::new();
     for f in rep.findings.values() {
         out.push_str(&format!("  FINDING {}: {}\n", f.sig, f.detail));
